@@ -75,9 +75,10 @@ type acceptPlan struct {
 	res chan acceptRes
 }
 type acceptRes struct {
-	ch  *client.Channel
-	acc client.ChannelProposalAccept
-	err error
+	ch       *client.Channel
+	acc      client.ChannelProposalAccept
+	err      error
+	panicked bool
 }
 
 type party struct {
@@ -89,10 +90,10 @@ type party struct {
 	jitter bool
 
 	mu     sync.Mutex
-	accts  [][]byte                       // marshalled addresses the wallet can unlock
-	called map[client.ProposalID]int      // recording ProposalHandler: invocations per proposal ID
+	accts  [][]byte                          // marshalled addresses the wallet can unlock
+	called map[client.ProposalID]int         // recording ProposalHandler: invocations per proposal ID
 	plans  map[client.ProposalID]*acceptPlan // proposals to accept (positive runs)
-	done   chan doneEvt                     // VerifHandle completion events (party under test only)
+	done   chan doneEvt                      // VerifHandle completion events (party under test only)
 }
 
 // detReader makes ecdsa.GenerateKey deterministic: its randutil.MaybeReadByte reads a single byte
@@ -159,6 +160,11 @@ func (p *party) HandleProposal(prop client.ChannelProposal, r *client.ProposalRe
 		}
 		ctx, cancel := context.WithTimeout(context.Background(), opTimeout)
 		defer cancel()
+		defer func() { // a panic below Accept must not take the harness down
+			if x := recover(); x != nil {
+				plan.res <- acceptRes{acc: acc, err: fmt.Errorf("panic: %v", x), panicked: true}
+			}
+		}()
 		ch, err := r.Accept(ctx, acc)
 		plan.res <- acceptRes{ch: ch, acc: acc, err: err}
 	}()
